@@ -65,14 +65,17 @@ CHECKS = {
         technique="runtime monitoring: client-boundary histories under a seeded serialising scheduler, offline linearizability checkers",
         text="Histories of 2..8 threads recorded at the client boundary under a seeded serialising scheduler (random, PCT, "
              "background starved/greedy; yield points at locks, condvars, libc I/O and inside batch inserts) and on native "
-             "threads with delays; checked by SWMR-register, zone (shared keys), consistent-cut and final-state checkers.",
-        note="Schedules are sampled; scheduler executes under sequential consistency; logical clock = scheduler steps."),
+             "threads with delays; checked by SWMR-register, zone (shared keys), consistent-cut and final-state checkers. "
+             "Tiny scenarios are enumerated systematically: every schedule with at most one (sharded part: two) deviations "
+             "from the default non-preemptive schedule.",
+        note="Realistic scenarios are sampled, tiny ones enumerated within a deviation bound; scheduler executes under sequential consistency; logical clock = scheduler steps."),
     "C09": dict(
         cat="exploration", engine="concmon+vsched", design="3/C09",
         technique="runtime monitoring: logical deadlock / lost wake-up detector in a serialising scheduler that models mutexes and condition variables",
         text="Stall scenarios run under every scheduler strategy; because mutexes and condition variables are modelled the "
              "scheduler knows when no thread can run while some are unfinished (deadlock / lost wake-up) and when a call "
-             "exceeds the step bound; spurious wake-ups are injected.",
+             "exceeds the step bound; spurious wake-ups are injected; tiny scenarios are additionally enumerated over every "
+             "schedule within one/two deviations from the default schedule.",
         note="Bounded liveness (step bound); close concurrent with other calls on the handle is outside the contract."),
     "C10": dict(
         cat="exploration", engine="racemon", design="3/C10",
